@@ -1,3 +1,3 @@
-//! The lock type the repository's shared objects use.  With hook H1 (cfg saito_verif) this is the
-//! recording shim exported by saito-core; without it, tokio's.
-pub use tokio::sync::RwLock;
+//! The lock type the repository's shared objects use: with hook H1 (cfg saito_verif, which the rig
+//! always builds with) this is the recording shim exported by saito-core.
+pub use saito_core::core::verif_lock::RwLock;
